@@ -291,6 +291,8 @@ pub const CORPUS: &[&str] = &[
     "permit(principal,action,resource) when { 0007 == 7 && 9223372036854775807 > 0 && -9223372036854775808 < 0 };",
     "permit(principal,action,resource) when { A::B::C::\"x\" == A::B::C::\"x\" && NS::Doc::\"\\u{1F600}\" != NS::Doc::\"e\\\"q\" };",
     "@a(\"1\")\n@b(\"2\")\n@c\n@d(\"\")\npermit(principal,action,resource);",
+    "permit(principal,action,resource);forbid(principal,action,resource)when{1==1};@id(\"x\")permit(principal,action,resource)unless{false};",
+    "permit(principal,action,resource);// c\nforbid(principal,action,resource);",
     "permit(principal,action,resource) when { context.aaaaaaaaaaaaaaaaaaaaaaaaaaaaaaaaaaaaaaaaaaaaaaaaaaaaaaaaaaaaaaaaaaaaaaaaaaaaaaaaaaaaaaaaaaaaaaaaaaaaaaaaaaaaaaaaaaaaaa.bbbbbbbbbbbbbbbbbbbbbbbbbbbbbbbbbbbbbbbbbbbbbbbbbbbbbbbbbbbbbbbbbbbbbbbbbbbbbbbbbbbbbbbbbb == \"cccccccccccccccccccccccccccccccccccccccccccccccccccccccccccccccccccccccccccccccccccccccccccccccccccccccccccccccccccccccccccccc\" };",
     "permit(principal,action,resource) when { \"multi\nline\n\n\nstring\" == \"x\" };",
 ];
@@ -335,7 +337,7 @@ fn gen_program(r: &mut Rng, g: &mut ExprGen, w: &gen::World) -> String {
     let n = 1 + r.below(4);
     let mut s = String::new();
     for i in 0..n {
-        if i > 0 { s.push_str(*r.pick(&["\n", "\n\n", " ", "\n\n\n"])); }
+        if i > 0 { s.push_str(*r.pick(&["\n", "\n\n", " ", "\n\n\n", "", ""])); } // "" = minified: the next policy abuts the `;`
         if r.chance(20) {
             s.push_str(*r.pick(CORPUS));
         } else {
